@@ -12,6 +12,24 @@ from .report import Run
 from . import names as N
 
 
+def _ctx_with_crate(ctx, unit, crate2):
+    c2 = _ctx_with_core(ctx, ctx.core)
+    c2._crates[unit] = crate2
+    return c2
+
+
+def _clone_crate(ctx, unit, body_id, edit):
+    """a Crate equal to ctx.crate(unit) except that edit(body_json) was applied to a deep copy of one body"""
+    cr = ctx.crate(unit)
+    js2 = dict(cr.js)
+    bodies = dict(cr.js['bodies'])
+    b2 = copy.deepcopy(bodies[body_id])
+    edit(b2)
+    bodies[body_id] = b2
+    js2['bodies'] = bodies
+    return Crate(js2, cr.file)
+
+
 def _ctx_with_core(ctx, core2):
     from .context import Ctx
     c2 = Ctx.__new__(Ctx)
